@@ -1,32 +1,99 @@
 import Aergo.Model.DriverLib
 import Aergo.Model.Slot
 import Aergo.Model.Enc
+import Aergo.Model.Producer
 
-/-! Model driver for C09: `model-c09 < ops > out`. -/
+/-! Model driver for C09: `model-c09 < ops > out`. Serves the harnesses c09 and c09chain. -/
 open Aergo Aergo.DriverLib
 
-def c09Step (line : String) : String :=
+/-- `-` = empty list, otherwise comma separated. -/
+def parseList (s : String) : List String := if s == "-" then [] else s.splitOn ","
+def showList (l : List String) : String := if l.isEmpty then "-" else ",".intercalate l
+/-- `!err` = the Go call returned an error. -/
+def parseOptList (s : String) : Option (List String) := if s == "!err" then none else some (parseList s)
+def showOptList : Option (List String) → String
+  | none => "nil"
+  | some l => showList l
+def parseOptInt (s : String) : Option (Option Int) := if s == "-" then some none else s.toInt?.map some
+
+/-- The signature primitive as the op line describes it: `key` = `-` (the header's PubKey does not unmarshal) or the
+peer id of the key; `sig` = good | wrong (well formed, does not verify) | malformed (Verify returns an error). -/
+def cryptoOf (key sig : String) : Option (Producer.Crypto String) :=
+  let v : Option (Option Bool) := match sig with
+    | "good" => some (some true)
+    | "wrong" => some (some false)
+    | "malformed" => some none
+    | _ => none
+  v.map fun v => { unmarshal := fun _ => if key == "-" then none else some key, verify := fun _ _ _ => v, peerId := some }
+
+def noRec : Enc.Rec := { raw := fun _ => [], num := fun _ => 0 }
+
+/-- What is compared: the producer count and the indexed members. The list `AddSnapshot`/`UpdateCluster` report back
+(`out`) only feeds the finality status' garbage collection (C08) and is not observable through `Status.Update`. -/
+def showSnaps (s : Producer.Snaps) (_out : Option (List String)) : String :=
+  s!"{s.size} {showList s.members}"
+
+def c09Step (st : Option Producer.Snaps) (line : String) : Option Producer.Snaps × String :=
   match words line with
   | ["slot", iv, ns, n] =>
-    match iv.toInt?, ns.toInt?, n.toInt? with
+    (st, match iv.toInt?, ns.toInt?, n.toInt? with
     | some iv, some ns, some n =>
       let s := Slot.fromUnixNs iv ns
       s!"{s.timeMs} {s.prevIndex} {s.nextIndex} {Slot.owner iv ns n}"
-    | _, _, _ => "bad-op"
+    | _, _, _ => "bad-op")
   | ["future", iv, ns, now] =>
-    match iv.toInt?, ns.toInt?, now.toInt? with
+    (st, match iv.toInt?, ns.toInt?, now.toInt? with
     | some iv, some ns, some now => toString (Slot.isFuture iv (Slot.fromUnixNs iv ns) now)
-    | _, _, _ => "bad-op"
+    | _, _, _ => "bad-op")
   | "valid" :: iv :: ts :: bpid :: ids =>
-    match iv.toInt?, ts.toInt? with
+    (st, match iv.toInt?, ts.toInt? with
     | some iv, some ts => toString (Slot.isBlockValid iv ids bpid ts)
-    | _, _ => "bad-op"
+    | _, _ => "bad-op")
+  | "validk" :: iv :: ts :: key :: ids =>
+    -- DPoS.IsBlockValid incl. its bad-public-key path (key = `-`)
+    (st, match iv.toInt?, ts.toInt? with
+    | some iv, some ts => toString (Producer.isBlockValidK iv ids (if key == "-" then none else some key) ts)
+    | _, _ => "bad-op")
+  | ["vsign", key, sig] =>
+    (st, match cryptoOf key sig with
+    | some c => toString (Producer.dposVerifySign c noRec)
+    | none => "bad-op")
+  | ["vts", iv, ts, now, lib, no] =>
+    (st, match iv.toInt?, ts.toInt?, now.toInt?, parseOptInt lib, no.toInt? with
+    | some iv, some ts, some now, some lib, some no => toString (Producer.verifyTimestamp iv ts now lib no)
+    | _, _, _, _, _ => "bad-op")
+  | "accept" :: iv :: now :: lib :: no :: ts :: key :: sig :: ids =>
+    (st, match iv.toInt?, now.toInt?, parseOptInt lib, no.toInt?, ts.toInt?, cryptoOf key sig with
+    | some iv, some now, some lib, some no, some ts, some c => toString (Producer.accept c iv ids now lib noRec no ts)
+    | _, _, _, _, _, _ => "bad-op")
   | ["hdrmut", f] =>
     -- mutating header field f: does the block id change? does the producer signature still verify?
     -- (an altered signature, or a digest that reads the field, stops verifying)
     let idChanges := Enc.covers Gen.Enc.blockHashSpec f
     let sigOk := !(Enc.covers Gen.Enc.blockSignSpec f || f == "Sign")
-    s!"{idChanges} {sigOk}"
-  | _ => "bad-op"
+    (st, s!"{idChanges} {sigOk}")
+  | ["sboot", best, load, g] =>
+    match best.toInt? with
+    | some best =>
+      let s := Producer.boot (parseList g) best (parseOptList load)
+      (some s, showSnaps s none)
+    | none => (st, "bad-op")
+  | ["sconn", no, rank, load] =>
+    match st, no.toInt? with
+    | some s, some no =>
+      let (s, out) := Producer.addSnapshot s no (parseOptList rank) (parseOptList load)
+      (some s, showSnaps s out)
+    | _, _ => (st, "bad-op")
+  | ["sroll", no, load] =>
+    match st, no.toInt? with
+    | some s, some no =>
+      let (s, out) := Producer.updateCluster s no (parseOptList load)
+      (some s, showSnaps s out)
+    | _, _ => (st, "bad-op")
+  | ["sref", no] =>
+    (st, match no.toInt? with
+    | some no => toString (Gen.Snap.snapBlockNo no)
+    | none => "bad-op")
+  | _ => (st, "bad-op")
 
-def main : IO UInt32 := runPure c09Step
+def main : IO UInt32 := run none c09Step
